@@ -213,6 +213,16 @@ pub(crate) fn handle_submit(
         ));
     }
 
+    // Resource requests are registered in the scheduler as they are, so they have to be checked
+    // here (the server cannot rely on the checks that are done by a client).
+    let resource_rqs = match &message.submit_desc.task_desc {
+        JobTaskDescription::Array { resource_rq, .. } => std::slice::from_ref(resource_rq),
+        JobTaskDescription::Graph { resource_rqs, .. } => resource_rqs.as_slice(),
+    };
+    if let Some(e) = resource_rqs.iter().find_map(|rqv| rqv.validate().err()) {
+        return ToClientMessage::Error(format!("Invalid submit: {e}"));
+    }
+
     let (job_id, new_job) = if let Some(job_id) = message.job_id {
         if let Some(job) = state.get_job(job_id) {
             if !job.is_open() {
